@@ -24,6 +24,17 @@ func genC18(t *rapid.T) c18Case {
 		return c18Case{TV: tv, Cell: cell}
 	}
 	cfg := c04Cfg()
+	if rapid.IntRange(0, 2).Draw(t, "recursive") == 0 {
+		// recursive named types with containers non-empty on several levels: the same container
+		// routine is re-entered while it is already running
+		name := rapid.SampledFrom([]string{"RecMV", "RecMK", "RecMix", "RecL", "RecLL", "RecH", "MutA", "MutC"}).Draw(t, "rectype")
+		s := core.LookupSpec(name)
+		vc := cfg
+		vc.NoNil = true
+		vc.ContainerMax = 3
+		vc.CountChoices = []int{1, 2, 3}
+		return c18Case{TV: TV{S: s, V: core.GenStructVal(t, vc, s)}, Cell: "recursive:" + name}
+	}
 	return c18Case{TV: genTV(cfg)(t)}
 }
 
